@@ -3201,7 +3201,7 @@ rfbSendFramebufferUpdate(rfbClientPtr cl,
     rfbBool sendServerIdentity = FALSE;
     rfbBool result = TRUE;
     rfbBool lastRectMode = FALSE;   /* count unknown: 0xFFFF + LastRect marker */
-    rfbBool coalesced = FALSE;
+    int coalesced = 0;              /* 1: update region coalesced, 2: copy rectangles merged too */
     
 
     if(cl->screen->displayHook)
@@ -3531,14 +3531,20 @@ countRects:
     /*
      * nRects is a 16-bit field and 0xFFFF means "terminated by a LastRect
      * marker": an update that would announce 65535 or more rectangles is sent
-     * as its bounding box instead.
+     * as its bounding box instead.  If that is not enough because the copy
+     * rectangles alone reach the field size, they are sent as pixels too.
      */
-    if (!lastRectMode && !coalesced &&
+    if (!lastRectMode && coalesced < 2 &&
 	sraRgnCountRects(updateCopyRegion) + (unsigned long)nUpdateRegionRects + 6 >= 0xFFFF) {
-	sraRegion* newUpdateRegion = sraRgnBBox(updateRegion);
+	sraRegion* newUpdateRegion;
+	if (coalesced == 1) {
+	    sraRgnOr(updateRegion, updateCopyRegion);
+	    sraRgnMakeEmpty(updateCopyRegion);
+	}
+	newUpdateRegion = sraRgnBBox(updateRegion);
 	sraRgnDestroy(updateRegion);
 	updateRegion = newUpdateRegion;
-	coalesced = TRUE;
+	coalesced++;
 	goto countRects;
     }
 
